@@ -151,10 +151,15 @@ Fixpoint pp_stmt (s : stmt) : list item :=
   | SFunc x ps b =>
     kw TokenFUNC :: identt x :: kw TokenLPAREN :: join_comma (map pp ps) ++ kw TokenRPAREN :: block (pp_lines b)
   end
-with pp_lines (b : sblock) : list item :=
+with pp_lines (b : sblock) : list item :=          (* the statements of a block / program, one per line *)
   match b with
   | BNil => []
-  | BCons s r => pp_stmt s ++ NL :: pp_lines r
+  | BCons s r => pp_stmt s ++ NL :: pp_more r
+  end
+with pp_more (b : sblock) : list item :=           (* the statements after the first: with a ";" where needed *)
+  match b with
+  | BNil => []
+  | BCons s r => sep_of (pp_stmt s) ++ pp_stmt s ++ NL :: pp_more r
   end
 with pp_tail (r : iftail) : list item :=
   match r with
